@@ -87,7 +87,28 @@ def oracle(entry, kind, hashseeds):
     return _M[k]
 
 
+def oracle_batch(items, hashseed):
+    """Fill M for many (entry, kind) pairs with one child interpreter that forks per item."""
+    todo = [(e, k) for e, k in items if _ekey(e, k) not in _M]
+    if not todo:
+        return
+    env = dict(os.environ)
+    env["PYTHONHASHSEED"] = str(hashseed)
+    env["PYTHONDONTWRITEBYTECODE"] = "1"
+    env["VERIF_REPO"] = core.REPO
+    p = subprocess.run(
+        [core.PYTHON, os.path.join(core.VERIF_ROOT, "qsim", "oracle_child.py")],
+        input=json.dumps({"batch": [{"entry": e, "kind": k} for e, k in todo]}), env=env,
+        stdout=subprocess.PIPE, stderr=subprocess.PIPE, text=True, timeout=900)
+    if p.returncode != 0:
+        raise core.HarnessError("oracle batch worker failed: %s" % p.stderr[-1500:])
+    for (e, k), v in zip(todo, json.loads(p.stdout)):
+        _M[_ekey(e, k)] = {"value": v, "agree": True, "hashseeds": [hashseed], "all": None}
+
+
 def _needed(case):
+    if case["kind"] == "long":
+        return []
     need = []
     hs = case["hashseeds"]
     for e in case["pool"]:
@@ -104,10 +125,70 @@ def prepare(cases, jobs):
             k = _ekey(e, kind)
             if k not in _M and k not in todo:
                 todo[k] = (e, kind, hs)
+    # long histories: hundreds of entries, evaluated by forking children of a few interpreters
+    big = []
+    for c in cases:
+        if c["kind"] == "long":
+            big += [(e, "call") for e in c["pool"]]
+    if big:
+        uniq = {}
+        for e, k in big:
+            uniq.setdefault(_ekey(e, k), (e, k))
+        items = [v for kk, v in uniq.items() if kk not in _M]
+        n = max(1, min(jobs, 16))
+        parts = [items[i::n] for i in range(n)]
+        hs = cases[0]["hashseeds"][2] if cases else 7
+        with ThreadPoolExecutor(max_workers=n) as ex:
+            list(ex.map(lambda part: oracle_batch(part, hs), [p_ for p_ in parts if p_]))
     if not todo:
         return
-    with ThreadPoolExecutor(max_workers=max(1, jobs)) as ex:
-        list(ex.map(lambda a: oracle(*a), todo.values()))
+    # Most of the table is filled by a few interpreters per hash seed that fork once per
+    # entry (each entry still is the first and only call of a pristine process image); a
+    # sample is evaluated by genuinely fresh interpreters as well and must agree with that.
+    by_hs = {}
+    for k, (e, kind, hs) in todo.items():
+        for h in hs:
+            by_hs.setdefault(h, []).append((k, e, kind))
+    results = {}
+
+    def run_part(arg):
+        h, part = arg
+        env = dict(os.environ)
+        env["PYTHONHASHSEED"] = str(h)
+        env["PYTHONDONTWRITEBYTECODE"] = "1"
+        env["VERIF_REPO"] = core.REPO
+        p = subprocess.run(
+            [core.PYTHON, os.path.join(core.VERIF_ROOT, "qsim", "oracle_child.py")],
+            input=json.dumps({"batch": [{"entry": e, "kind": kind} for _, e, kind in part]}),
+            env=env, stdout=subprocess.PIPE, stderr=subprocess.PIPE, text=True, timeout=900)
+        if p.returncode != 0:
+            raise core.HarnessError("oracle batch worker failed: %s" % p.stderr[-1500:])
+        return [(k, h, v) for (k, _, _), v in zip(part, json.loads(p.stdout))]
+
+    n = max(1, min(jobs, 16))
+    parts = []
+    for h, items in by_hs.items():
+        per = max(1, n // max(1, len(by_hs)))
+        for i in range(per):
+            if items[i::per]:
+                parts.append((h, items[i::per]))
+    with ThreadPoolExecutor(max_workers=n) as ex:
+        for chunk in ex.map(run_part, parts):
+            for k, h, v in chunk:
+                results.setdefault(k, {})[h] = v
+    for k, (e, kind, hs) in todo.items():
+        vals = [results[k][h] for h in hs]
+        agree = all(v == vals[0] for v in vals[1:])
+        _M[k] = {"value": vals[0], "agree": agree, "hashseeds": list(hs),
+                 "all": vals if not agree else None}
+    # cross-check: genuinely fresh interpreters for a sample
+    sample = sorted(todo)[:: max(1, len(todo) // 10)][:10]
+    with ThreadPoolExecutor(max_workers=n) as ex:
+        fresh = list(ex.map(lambda k: _spawn(todo[k][0], todo[k][1], todo[k][2][0]), sample))
+    for k, v in zip(sample, fresh):
+        if v != _M[k]["value"]:
+            _M[k]["agree"] = False
+            _M[k]["all"] = [_M[k]["value"], v]
 
 
 # --------------------------------------------------------------------------
@@ -309,11 +390,22 @@ class World:
             try:
                 kw = entries.kwargs(lib, pool[e])
                 kw["timeout"] = op["k"] - 0.5
-                got = [core.cand_key(c) for c in lib["ctparse"].ctparse_gen(pool[e]["text"], **kw)]
+                if op.get("single"):
+                    # the single-result entry point under a deadline: whatever it returns,
+                    # it must not influence later calls
+                    lib["ctparse"].ctparse(pool[e]["text"], **kw)
+                    got = None
+                else:
+                    got = [core.cand_key(c)
+                           for c in lib["ctparse"].ctparse_gen(pool[e]["text"], **kw)]
             except Exception as ex:
                 got = "%s: %s" % (type(ex).__name__, ex)
             finally:
                 lib["timers"].perf_counter = saved
+            if op.get("single") and got is None:
+                self.stats["faults"]["deadline"] += 1
+                self.obs.append([i, "TIMEOUT1", e, op["k"]])
+                return
             want = self.ref(e, "gen")
             self.stats["n_eval"] += 1
             self.stats["faults"]["deadline"] += 1
@@ -484,7 +576,9 @@ def execute(case):
     keys = []
     kind = case["kind"]
     # the table itself: agreement across hash seeds / fresh processes
-    for e in case["pool"]:
+    if case["kind"] == "long":
+        oracle_batch([(e, "call") for e in case["pool"]], case["hashseeds"][2])
+    for e in ([] if case["kind"] == "long" else case["pool"]):
         for k_, hs in (("gen", case["hashseeds"][:2]), ("call", case["hashseeds"][2:3])):
             m = oracle(e, k_, hs)
             stats["faults"]["fresh_process"] += len(hs)
@@ -503,6 +597,14 @@ def execute(case):
         stats["sim_time"] += len(ops)
         if alt >= 2:
             keys.append(core.short(ops))
+    elif kind == "long":
+        # a long sequential history over hundreds of DISTINCT texts with a few texts coming
+        # back (bounded memos / rings with an eviction bug need the distance)
+        ops = case["ops"]
+        obs = _exec_ops(lib, case, ops, V, stats)
+        probes["long_history_calls"] = probes.get("long_history_calls", 0) + len(ops)
+        stats["sim_time"] += len(ops)
+        keys.append(core.short(["long", len(ops), case["pool"][0]]))
     elif kind == "pairs":
         # all interleavings of the steps of two streams
         a, b = case["lens"]
@@ -529,7 +631,10 @@ def execute(case):
     else:
         raise core.HarnessError("unknown case kind %r" % kind)
     sample = {"kind": kind, "pool": case["pool"][:3]}
-    if kind == "task":
+    if kind == "long":
+        sample["ops"] = case["ops"][:6]
+        sample["n_ops"] = len(case["ops"])
+    elif kind == "task":
         sample["ops"] = case["ops"][:14]
     elif kind == "threads":
         sample["scripts"] = case["scripts"]
@@ -649,7 +754,9 @@ def _client_script(rng, c, n_entries, handle_base):
             ops.append({"op": "FAIL", "e": e, "k": rng.choice([1, 2, 3, 5, 9, 17, 40]), "c": c})
         else:
             ops.append({"op": "TIMEOUT", "e": e, "k": rng.choice([1, 2, 3, 5, 9, 17, 40, 90]),
-                        "c": c})
+                        "c": c, "single": rng.random() < 0.4})
+            if rng.random() < 0.6:
+                ops.append({"op": "CALL", "e": e, "c": c})
     return ops
 
 
@@ -772,6 +879,50 @@ def plan(prop, tier, seed):
         ops += [{"op": "STEP", "h": 1, "c": 1}] * 60
         ops.append({"op": "CALL", "e": r.randrange(2), "c": 1, "checkpoint": True})
         cases.append({"kind": "task", "pool": [e, e2], "ops": ops, "hashseeds": hashseeds})
+    # -- instant aliases: one text, reference times that denote the same instant in zones
+    #    whose local dates differ (aware datetimes compare and hash by instant)
+    for i in range(30 if quick else 400):
+        r = core.stream(core.derive_seed(base, "alias", i), "sched")
+        from datetime import timedelta as _td, timezone as _tz
+        t = r.choice(workload.RELDAYS[:9] + ["this monday", "next friday", "8pm", "morning",
+                                            "eom", "31."])
+        if r.random() < 0.5:
+            t += " " + r.choice(workload.CLOCKS)
+        base_ = workload.ref_time(r, 2016, 2043).replace(
+            hour=23, minute=r.choice([5, 30, 55]), second=0, microsecond=0)
+        a = base_.replace(tzinfo=_tz.utc)
+        b = a.astimezone(_tz(_td(hours=r.choice([1, 2, 5, -10, 9]))))
+        e1, e2 = {"text": t, "ts": fmt_ts(a)}, {"text": t, "ts": fmt_ts(b)}
+        if r.random() < 0.5:
+            e1, e2 = e2, e1
+        ops = [{"op": "CALL", "e": 0, "c": 0}, {"op": "CALL", "e": 1, "c": 1},
+               {"op": "CALL", "e": 0, "c": 0}, {"op": "OPEN", "h": 0, "e": 1, "c": 1}]
+        ops += [{"op": "STEP", "h": 0, "c": 1}] * 40
+        cases.append({"kind": "task", "pool": [e1, e2], "ops": ops, "hashseeds": hashseeds})
+    # -- long sequential histories
+    for i, n_distinct in enumerate([450] if quick else [300, 450, 700, 1100, 2100, 4200]):
+        r = core.stream(core.derive_seed(base, "long", i), "sched")
+        texts = []
+        seen_t = set()
+        while len(texts) < n_distinct:
+            t = "%s %s" % (r.choice(workload.DOWS + workload.RELDAYS[:9]),
+                           r.choice(workload.CLOCKS))
+            if r.random() < 0.5:
+                t = r.choice(["am", "on", "at", "call", "lunch", "meet"]) + " " + t
+            if r.random() < 0.3:
+                t += " " + r.choice(["pm", "uhr", "morning", "abends", "sharp"])
+            if t not in seen_t and len(t) <= 40:
+                seen_t.add(t)
+                texts.append(t)
+        ts0 = fmt_ts(workload.ref_time(r, 2016, 2043))
+        pool = [{"text": t, "ts": ts0} for t in texts]
+        back = r.sample(range(min(40, n_distinct)), 8)
+        ops = [{"op": "CALL", "e": j, "c": 0} for j in range(n_distinct)]
+        ops += [{"op": "CALL", "e": j, "c": 0} for j in back]
+        # and once more after the early ones have certainly been pushed out
+        ops += [{"op": "CALL", "e": j, "c": 0} for j in r.sample(range(n_distinct), 12)]
+        ops[-1]["checkpoint"] = True
+        cases.append({"kind": "long", "pool": pool, "ops": ops, "hashseeds": hashseeds})
     # -- all interleavings of two short streams: needs stream lengths -> uses the table
     short_entries = []
     with ThreadPoolExecutor(max_workers=min(16, os.cpu_count() or 1)) as ex:
@@ -806,6 +957,12 @@ def plan(prop, tier, seed):
 
 def shrink_moves(case):
     kind = case["kind"]
+    if kind == "long":
+        ops = case["ops"]
+        for cand in core.ddmin_list(ops):
+            if cand:
+                yield dict(case, ops=cand)
+        return
     if kind == "task":
         ops = case["ops"]
         for cand in core.ddmin_list(ops):
